@@ -83,6 +83,8 @@ def replay(ctx):
     job = {"mode": "c04", "c04": {"behaviours": [{"lazy": 0, "steps": steps}], "maps": [m], "detail": True}}
     out, _ = vlib.run_driver(ctx, binary, stdin_obj=job)
     recs = [r for r in out if r["kind"] == "replay"]
+    for r in recs:
+        r["mapv"] = m
     ctx.cov["evaluations"] = len(recs)
     judge(ctx, recs, "replay")
     ctx.sample(recs[0]["steps"])
@@ -187,7 +189,7 @@ def run(ctx):
     for r in bad:
         by_sig.setdefault((signature(r), r["kind"], r["tag"].split(":")[0]), []).append(r)
     worst = [v[0] for v in by_sig.values()][:40]
-    for r in worst:
+    for r in worst + det:
         if r["kind"] == "replay":
             r["mapv"] = maps[r["map"]]
     acc, rej = judge(ctx, det + worst, "C04 replays")
